@@ -1123,6 +1123,61 @@ func animationOptions(c *Ctx, rng *Rand) {
 	for _, lc := range []int{minInt, -1, 0, 1, 65535, 65536, maxInt} {
 		try(animation.EncodeOptions{Quality: 60, LoopCount: lc}, 2, false)
 	}
+
+	// Kmin ("frames closer than Kmin to the previous keyframe are always encoded as sub-frames") is
+	// sanitized but never read; the only path that could put a keyframe below Kmin is the
+	// "more than 90% of the canvas changed and the full-canvas encoding is smaller" choice of
+	// encodeSubFrame.  Scenarios built to reach that path: a second frame that differs from the
+	// first one everywhere except in its leftmost columns.  A keyframe at distance 1 < Kmin is a
+	// violation of the documented clause.
+	nsc := 16
+	if c.Thorough() {
+		nsc = 120
+	}
+	for it := 0; it < nsc; it++ {
+		r := rng.Fork()
+		w, h := 32+16*r.Intn(2), 16+16*r.Intn(2)
+		ll := it%2 == 0
+		kind := r.Intn(4)
+		mk := func(k int) *image.NRGBA {
+			im := image.NewNRGBA(image.Rect(0, 0, w, h))
+			for y := 0; y < h; y++ {
+				for x := 0; x < w; x++ {
+					i := y*im.Stride + x*4
+					var cr, cg, cb byte
+					switch kind {
+					case 0:
+						cr, cg, cb = byte(r.U64()), byte(r.U64()), byte(r.U64())
+					case 1:
+						cr, cg, cb = byte(x*7+k*90), byte(y*5+k*50), byte(k*120)
+					case 2:
+						cr, cg, cb = byte(k*200), byte(k*100), byte(50+k*30)
+					default:
+						cr, cg, cb = byte((x/4+k)*40), byte((y/4)*40+k*17), byte(r.Intn(8)+k*60)
+					}
+					im.Pix[i], im.Pix[i+1], im.Pix[i+2], im.Pix[i+3] = cr, cg, cb, 255
+				}
+			}
+			return im
+		}
+		f0, f1 := mk(0), mk(1)
+		keep := 1 + r.Intn(3)
+		for y := 0; y < h; y++ {
+			copy(f1.Pix[y*f1.Stride:y*f1.Stride+keep*4], f0.Pix[y*f0.Stride:y*f0.Stride+keep*4])
+		}
+		var buf bytes.Buffer
+		e := animation.NewEncoder(&buf, w, h, &animation.EncodeOptions{Quality: 60, Lossless: ll, Kmin: 8, Kmax: 9})
+		err0 := e.AddFrame(f0, 40*time.Millisecond)
+		err1 := e.AddFrame(f1, 40*time.Millisecond)
+		fc, sinceKey, _, _, kmin, kmax, _ := animation.VerifEncoderState(e)
+		c.D.Evaluations++
+		c.Count("anim_kmin_scenarios")
+		if err0 == nil && err1 == nil && fc == 2 && sinceKey == 0 && kmin > 1 {
+			c.Violate("anim-keyframe-below-kmin", fmt.Sprintf("second frame encoded as a keyframe at distance 1 although Kmin = %d (Kmax = %d)", kmin, kmax),
+				map[string]any{"canvas": fmt.Sprintf("%dx%d", w, h), "lossless": ll, "kind": kind, "unchanged_left_columns": keep, "scenario": it})
+		}
+	}
+	c.Nontrivial("anim:kmin")
 }
 
 // ---------------------------------------------------------------------------
